@@ -29,7 +29,7 @@ CHECKS = {
            "histories refine an abstract priority queue, conservation of inserted elements, failed insert/remove leave the state unchanged, empty/full truthful; any capacity/policy/ties. "
            "Tied by exact correspondence on the full internal state after every operation (random, invalid and exhaustive-small histories).",
            "5/C05", "Coq proof: heap invariant by induction over histories + refinement to an abstract priority queue; model/impl correspondence",
-           _T + "Costs non-NaN; indices < 2^53 (Heap.dad's float division)."),
+           _T + "Costs non-NaN; Heap.dad's float division is proved exact for indices <= 2^53 (Props/C05_binary64.v)."),
  "C06": _c("Props/C06.v: for each of the 47 identifiers the term regenerated from distance.py evaluates over R to the published closed form (Spec/MetricSpec.v) for every vector length; "
            "registry keys = whitelist; constructor plumbing. Regenerated and re-proved on every run (translator tie).",
            "5/C06", "Coq proof over a fail-closed Python-ast -> Coq translation regenerated every run; translator validation against the real functions",
@@ -89,6 +89,6 @@ CHECKS = {
            _T + "Partial: np.random.permutation being a seed-determined permutation, struct decoding, float32 text/JSON round trip, savetxt/loadtxt are exercised exactly but outside the theorems. Domain: >= 2 samples."),
  "C20": _c("Props/C20.v over Model/Measures.v (transcription of math/general.py over exact rationals): confusion counts and total, accuracy formula / bounds / =1 iff all correct, per-label = recall, "
            "purity bounds / =1 iff groups pure; normalize over R with mean 0 and sum of squares n. Correspondence: exhaustive small vectors + random streams, counts exact, rationals within 1e-12, "
-           "normalize under PrimFloat.", "5/C20", "Coq proof over Q / R + exhaustive-small and random correspondence",
+           "normalize under PrimFloat. Props/C20_rounding.v / C20_binary64.v: opf_accuracy as the float code evaluates it (numpy pairwise sum included) under any relative-error rounding: |A_fl - A| <= (1+u)^(K+4) - 1, = 1 exactly iff all predictions are correct (for 2KN+K+3 < 1/u), within [0,1] at binary64.", "5/C20", "Coq proof over Q / R + exhaustive-small and random correspondence",
            _T + "0/0 -> nansum modelled as x/0 = 0 with x/0, x > 0 proved impossible on the domain; float rounding outside the theorems."),
 }
